@@ -79,6 +79,23 @@ pub struct Scenario {
     /// how main / target / base are written: 0 relative, 1 absolute paths, 2 file:// URLs
     #[serde(default)]
     pub setting_style: u8,
+    /// an imported module that is a symbolic link to a regular file beside it
+    #[serde(default)]
+    pub symlinked: Option<String>,
+    /// how `-c` names the configuration file (the process stands in its directory):
+    /// 0 absolute path, 1 `oal.toml`, 2 `./oal.toml`, 3 `src/../oal.toml` or `./././oal.toml`
+    #[serde(default)]
+    pub conf_spelling: u8,
+}
+
+fn conf_arg(scn: &Scenario, root: &std::path::Path) -> std::ffi::OsString {
+    match scn.conf_spelling {
+        1 => "oal.toml".into(),
+        2 => "./oal.toml".into(),
+        3 if !scn.src_prefix.is_empty() => "src/../oal.toml".into(),
+        3 => "./././oal.toml".into(),
+        _ => root.join("oal.toml").into_os_string(),
+    }
 }
 
 fn sentinel_bytes(scn: &Scenario) -> Vec<u8> {
@@ -180,6 +197,16 @@ fn execute_inner(c: &Cfg, world: &World, scn: &Scenario, planted: Option<&[u8]>)
         let b = if scn.fault == Fault::MalformedBase { "{ not: [yaml" } else { BASE_YAML };
         std::fs::write(root.join("base.yaml"), b).expect("scratch");
     }
+    if let Some(p) = &scn.symlinked {
+        // the module's name is a link to the file that holds its text
+        let at = root.join(p);
+        if let (true, Some(name)) = (at.is_file(), at.file_name().and_then(|n| n.to_str())) {
+            let real = format!("{name}.real");
+            if std::fs::rename(&at, at.with_file_name(&real)).is_ok() {
+                std::os::unix::fs::symlink(&real, &at).expect("scratch");
+            }
+        }
+    }
     let tname = target_name(scn);
     let mut tpath = root.join(&tname);
     if let Some(parent) = tpath.parent() {
@@ -239,13 +266,13 @@ fn execute_inner(c: &Cfg, world: &World, scn: &Scenario, planted: Option<&[u8]>)
             }
         }
         1 => {
-            cmd.arg("-c").arg(root.join("oal.toml"));
+            cmd.arg("-c").arg(conf_arg(scn, &root));
             if scn.fault == Fault::TargetDevFull {
                 cmd.args(["-t", &target_arg]);
             }
         }
         _ => {
-            cmd.arg("-c").arg(root.join("oal.toml")).args(["-t", &target_arg]);
+            cmd.arg("-c").arg(conf_arg(scn, &root)).args(["-t", &target_arg]);
         }
     }
     match scn.verbosity {
@@ -374,6 +401,16 @@ pub fn certainly_invalid(scn: &Scenario) -> Option<&'static str> {
     let last = t.rsplit('\n').next().unwrap_or("");
     if !last.is_empty() && last.chars().all(|c| c == '^') {
         return Some("stray characters end the main module");
+    }
+    // a well-formed last statement whose status is no HTTP status: whatever precedes it either
+    // is rejected itself or leaves this statement to be rejected
+    let last_line = t.trim_end_matches(['\n', '\r']).rsplit(['\n', '\r']).next().unwrap_or("");
+    if let Some(n) = last_line.strip_prefix("res /zz-no-such-status on get -> <status=").and_then(|r| r.strip_suffix(", {}>;")) {
+        if let Ok(n) = n.parse::<u64>() {
+            if !(100..=599).contains(&n) {
+                return Some("the main module ends in a transfer whose status is no HTTP status");
+            }
+        }
     }
     None
 }
@@ -952,7 +989,16 @@ pub fn run(seed: u64, run: u64) -> Report {
         old_sources: wl.chance(1, 3),
         setting_style: *wl.pick(&[0, 0, 0, 1, 2]),
         folder_b_broken: folder_b && sr.chance(1, 2),
+        symlinked: None,
+        conf_spelling: *wl.pick(&[0, 0, 1, 1, 2, 3]),
     };
+    if wl.chance(1, 8) {
+        let cands: Vec<String> = scn.files.keys().filter(|p| !p.ends_with("main.oal") && !p.starts_with("fb/")).cloned().collect();
+        if !cands.is_empty() {
+            scn.symlinked = Some(wl.pick(&cands).clone());
+            probes.push("module_is_a_symbolic_link".into());
+        }
+    }
     if scn.folder_b_broken {
         // any error will do: the other folder's program is not the one being compiled
         scn.files.insert("fb/main.oal".into(), "let item = { 'id num ;\nres /b on get -> <item>;\n".into());
